@@ -44,14 +44,25 @@ def enclosing_loops(b, bi):
 def err_variants(b):
     """Error enum variants constructed in a body whose construction block leads only to an Err return"""
     out = {}
-    ra = mir.return_assignments(b)
     for bi in sorted(b.live_blocks()):
         for st in b.blocks[bi]["s"]:
             rv = st["rv"]
             if rv["r"] == "aggr" and rv.get("adt", "").endswith("Error"):
-                region = b.reachable(bi)
-                if not (region & set(ra["Ok"])) or True:
-                    out.setdefault(rv["variant"], []).append(bi)
+                out.setdefault(rv["variant"], []).append(bi)
+    # an error built inside a closure of the body (`.ok_or_else(|| Error::X(..))?`, `.map_err(|e| ..)?`) is reported at the
+    # block that creates the closure
+    for bi in sorted(b.live_blocks()):
+        for st in b.blocks[bi]["s"]:
+            rv = st["rv"]
+            if rv["r"] == "aggr" and rv.get("kind") == "closure":
+                cb = b.prog.bodies.get(rv.get("def") or rv.get("adt") or "")
+                if cb is None:
+                    continue
+                for cbi in sorted(cb.live_blocks()):
+                    for cst in cb.blocks[cbi]["s"]:
+                        crv = cst["rv"]
+                        if crv["r"] == "aggr" and crv.get("adt", "").endswith("Error"):
+                            out.setdefault(crv["variant"], []).append(bi)
     return out
 
 
